@@ -63,6 +63,14 @@ def run(ctx, rep):
                 rep.ob('R12.2', f'{k}:interval-definition', ok,
                        f'{k} = {base} {"-" if op == "Sub" else "+"} intervals[{k}]/60' if ok else
                        f'{k} = {W.show_cell(cell)} (documented: {base} {"-" if op == "Sub" else "+"} intervals[{k}] minutes)', world=w.describe())
+            elif ic.get(k) is None and fin[base][0] == 'Ok':
+                # this outcome was produced without ever testing intervals[k]
+                mention = cell[0] == 'Ok' and any(x and x[0] == 'mapget' and x[1] == ('field', P, 'intervals') for x in subterms(cell[1]))
+                rep.ob('R12.2', f'{k}:interval-consulted', None if mention else False,
+                       f'{k} = {W.show_cell(cell)}: intervals[{k}] is used without being tested - not decided' if mention else
+                       f'under policy None {k} = {W.show_cell(cell)} is returned on a path that never looks at intervals[{k}]: for an interval '
+                       f'method {k} stays at its angle-0 conventional value instead of {base} {"-" if op == "Sub" else "+"} the interval',
+                       world=w.describe())
             elif ic.get(k) is True:
                 ok = cell == W.initial_cell(w, k)
                 rep.ob('R12.2', f'{k}:no-interval', ok, f'{k} is the conventional time when its interval is 0' if ok else
